@@ -1,54 +1,114 @@
-// ===== model of crate::socket (UDP/TCP transport) =====
+// ===== model of crate::socket (UDP/TCP transport) and std::net addresses =====
 // The real sockets are std::net wrappers (foreign code).  ASSUMED contract, taken from socket.rs:
+//   new     : connects/binds to the given address; nothing sent yet
 //   send    : Err => kind PacketSend; Ok => exactly `data` was handed to the transport (appended to the ghost log)
-//   receive : Err => kind PacketReceive; Ok => one datagram of at most the requested size (default 1024)
-// `sent()` / `recvd()` are ghost logs used by C09/C10/C11/C13 contracts.
+//   receive : Err => kind PacketReceive (may happen at any time: timeouts are not predictable);
+//             Ok  => the next datagram of the server's (finite) reply script, truncated to the requested size
+// `sent()` is the ghost send log, `script()` the datagrams the server will still send ("finite reply script followed
+// by silence" of properties C01/C13), `recvd()` counts datagrams delivered.
+#[verifier::external_body]
+pub struct IpAddr { _p: core::marker::PhantomData<()> }
+#[verifier::external_body]
+pub struct SocketAddr { _p: core::marker::PhantomData<()> }
+impl SocketAddr {
+    pub uninterp spec fn ip(&self) -> IpAddr;
+    pub uninterp spec fn port(&self) -> u16;
+    pub uninterp spec fn new_spec(ip: IpAddr, port: u16) -> SocketAddr;
+    #[verifier::external_body]
+    pub fn new(ip: IpAddr, port: u16) -> (r: Self)
+        ensures r == Self::new_spec(ip, port), r.ip() == ip, r.port() == port
+    { unimplemented!() }
+}
+impl Clone for IpAddr { #[verifier::external_body] fn clone(&self) -> (r: Self) ensures r == *self { unimplemented!() } }
+impl Copy for IpAddr {}
+#[verifier::external_body]
+pub struct TimeoutSettings { _p: core::marker::PhantomData<()> }
+impl TimeoutSettings {
+    pub uninterp spec fn retries(&self) -> usize;
+    pub uninterp spec fn default_retries() -> usize;
+    #[verifier::external_body]
+    pub fn get_retries_or_default(timeout_settings: &Option<TimeoutSettings>) -> (r: usize)
+        ensures r == (if timeout_settings is Some { timeout_settings->Some_0.retries() } else { Self::default_retries() })
+    { unimplemented!() }
+}
+
+/// failures of the transport itself (as opposed to a malformed reply)
+pub open spec fn is_transport_err(k: GDErrorKind) -> bool { k == PacketSend || k == PacketReceive || k == SocketBind || k == SocketConnect }
+pub const DEFAULT_PACKET_SIZE: usize = 1024;
+pub open spec fn truncated(d: Seq<u8>, size: Option<usize>) -> Seq<u8> {
+    let n = if size is Some { size->Some_0 as int } else { DEFAULT_PACKET_SIZE as int };
+    if d.len() <= n { d } else { d.subrange(0, n) }
+}
+/// what the server behind an address will send (uninterpreted: every property quantifies over it)
+pub uninterp spec fn server_script(addr: SocketAddr) -> Seq<Seq<u8>>;
+
 #[verifier::external_body]
 pub struct UdpSocket { _p: core::marker::PhantomData<()> }
-pub const DEFAULT_PACKET_SIZE: usize = 1024;
 impl UdpSocket {
+    pub uninterp spec fn dest(&self) -> SocketAddr;
     pub uninterp spec fn sent(&self) -> Seq<Seq<u8>>;
     pub uninterp spec fn recvd(&self) -> nat;
-    /// datagrams the server will still send before going silent (the property's "finite reply script")
-    pub uninterp spec fn pending(&self) -> nat;
+    pub uninterp spec fn script(&self) -> Seq<Seq<u8>>;
+    pub open spec fn pending(&self) -> nat { self.script().len() }
+    #[verifier::external_body]
+    pub fn new(address: &SocketAddr, timeout_settings: &Option<TimeoutSettings>) -> (r: GDResult<Self>)
+        ensures r is Ok ==> r->Ok_0.dest() == *address && r->Ok_0.sent() == Seq::<Seq<u8>>::empty() && r->Ok_0.recvd() == 0
+                         && r->Ok_0.script() == server_script(*address),
+                r is Err ==> r->Err_0.kind == SocketBind || r->Err_0.kind == SocketConnect
+    { unimplemented!() }
     #[verifier::external_body]
     pub fn send(&mut self, data: &[u8]) -> (r: GDResult<()>)
         ensures
-            final(self).recvd() == old(self).recvd(), final(self).pending() == old(self).pending(),
+            final(self).dest() == old(self).dest(),
+            final(self).recvd() == old(self).recvd(), final(self).script() == old(self).script(),
             r is Ok ==> final(self).sent() == old(self).sent().push(data@),
             r is Err ==> final(self).sent() == old(self).sent() && r->Err_0.kind == PacketSend,
     { unimplemented!() }
     #[verifier::external_body]
     pub fn receive(&mut self, size: Option<usize>) -> (r: GDResult<Vec<u8>>)
         ensures
+            final(self).dest() == old(self).dest(),
             final(self).sent() == old(self).sent(),
-            r is Ok ==> final(self).recvd() == old(self).recvd() + 1 && final(self).pending() + 1 == old(self).pending()
-                     && r->Ok_0@.len() <= (if size is Some { size->Some_0 } else { DEFAULT_PACKET_SIZE }),
-            r is Err ==> final(self).recvd() == old(self).recvd() && final(self).pending() == old(self).pending()
+            r is Ok ==> old(self).script().len() > 0
+                     && r->Ok_0@ == truncated(old(self).script()[0], size)
+                     && final(self).script() == old(self).script().drop_first()
+                     && final(self).recvd() == old(self).recvd() + 1,
+            r is Err ==> final(self).recvd() == old(self).recvd() && final(self).script() == old(self).script()
                       && r->Err_0.kind == PacketReceive,
     { unimplemented!() }
 }
 #[verifier::external_body]
 pub struct TcpSocket { _p: core::marker::PhantomData<()> }
 impl TcpSocket {
+    pub uninterp spec fn dest(&self) -> SocketAddr;
     pub uninterp spec fn sent(&self) -> Seq<Seq<u8>>;
     pub uninterp spec fn recvd(&self) -> nat;
-    /// datagrams the server will still send before going silent (the property's "finite reply script")
-    pub uninterp spec fn pending(&self) -> nat;
+    pub uninterp spec fn script(&self) -> Seq<Seq<u8>>;
+    pub open spec fn pending(&self) -> nat { self.script().len() }
+    #[verifier::external_body]
+    pub fn new(address: &SocketAddr, timeout_settings: &Option<TimeoutSettings>) -> (r: GDResult<Self>)
+        ensures r is Ok ==> r->Ok_0.dest() == *address && r->Ok_0.sent() == Seq::<Seq<u8>>::empty() && r->Ok_0.recvd() == 0
+                         && r->Ok_0.script() == server_script(*address),
+                r is Err ==> r->Err_0.kind == SocketBind || r->Err_0.kind == SocketConnect
+    { unimplemented!() }
     #[verifier::external_body]
     pub fn send(&mut self, data: &[u8]) -> (r: GDResult<()>)
         ensures
-            final(self).recvd() == old(self).recvd(), final(self).pending() == old(self).pending(),
+            final(self).dest() == old(self).dest(),
+            final(self).recvd() == old(self).recvd(), final(self).script() == old(self).script(),
             r is Ok ==> final(self).sent() == old(self).sent().push(data@),
             r is Err ==> final(self).sent() == old(self).sent() && r->Err_0.kind == PacketSend,
     { unimplemented!() }
-    // read_to_end on a stream: no size bound other than the allocator's (len <= isize::MAX)
+    // read_to_end on a stream: everything the peer sends until it closes (no size bound: see the C13 note on TCP)
     #[verifier::external_body]
     pub fn receive(&mut self, size: Option<usize>) -> (r: GDResult<Vec<u8>>)
         ensures
+            final(self).dest() == old(self).dest(),
             final(self).sent() == old(self).sent(),
-            r is Ok ==> final(self).recvd() == old(self).recvd() + 1 && final(self).pending() + 1 == old(self).pending(),
-            r is Err ==> final(self).recvd() == old(self).recvd() && final(self).pending() == old(self).pending()
+            r is Ok ==> old(self).script().len() > 0 && r->Ok_0@ == old(self).script()[0]
+                     && final(self).script() == old(self).script().drop_first()
+                     && final(self).recvd() == old(self).recvd() + 1,
+            r is Err ==> final(self).recvd() == old(self).recvd() && final(self).script() == old(self).script()
                       && r->Err_0.kind == PacketReceive,
     { unimplemented!() }
 }
